@@ -85,6 +85,8 @@ IsMUSIdx(S) == UnsatIdx(S) /\ \A i \in S : ~UnsatIdx(S \ {i})
 ResultIsMUS == (phase = "done" /\ res = "ok") => IsMUSIdx(mus)
 ErrorIffSat == (phase = "done") => ((res = "error") <=> ~UnsatIdx(All))
 Terminates == <>(phase = "done")
+(* the one-pass formulation of minimal unsatisfiability used on traces agrees with the definition *)
+Lemma == phase = "start" => FalsLemma(N, F)
 
 EmitFile == IF "VERIF_EMIT" \in DOMAIN IOEnv THEN IOEnv.VERIF_EMIT ELSE "mus_emit.ndjson"
 EmitF == (phase = "start" /\ alg = "deletion") => CSVWrite("%1$s", <<ToJson([n |-> N, F |-> F])>>, EmitFile)
